@@ -1021,6 +1021,9 @@ def gen_schedule(hist: History, rng, count=None):
         if cap.live_wires and rng.random() < 0.7:
             during = list(range(lo, cap.wire_len)) + list(cap.live_wires)   # as it happened: committed during the request
             ctx_idx = cap_idx
+        if during and rng.random() < 0.06:
+            # a burst while the request is in flight: the last notification is repeated many times (a replaying sender)
+            during = during + [during[-1]] * rng.choice([10, 150, 150])
         nxt = max([cap.wire_len] + [i + 1 for i in during])
         if rng.random() < 0.2 and nxt < n and hist.reports[nxt].vg[1:] == cap.snap.vg[1:]:
             # forced interleaving of a notification thread with reload_all at the buffer lock of the pre-check
@@ -1694,6 +1697,8 @@ class Runner:
             return
         hist = self.hist
         nxt = self.in_sync_wire
+        if i < nxt and i in self.delivered:
+            return      # a duplicate of a report that was processed: must change nothing (checked above), still in sync
         if i != nxt:
             self.in_sync_tx = None
             return
@@ -1773,6 +1778,11 @@ class Runner:
             if hist.reports[i].vg[1:] == cap.snap.vg[1:] and (consistent or hist.reports[i].rk not in (3, 6)):
                 self.delivered.add(i)     # contained in the snapshot
         # loss-free initial load: the applicable notifications are exactly the next reports, once, in order
+        # (duplicates of a report that is already in the buffer change nothing: only the first occurrences count)
+        firsts = list(dict.fromkeys(applicable))
+        if len(firsts) != len(applicable):
+            self.count('inflight-with-duplicates')
+        applicable = firsts
         expect = list(range(cap.wire_len, cap.wire_len + len(applicable)))
         self.in_sync_tx = None
         ctx_ok = ctx_idx == cap_idx or bool(cap.snap.cstates)
@@ -1919,6 +1929,13 @@ def _chunk_worker(args):
     logging.disable(logging.CRITICAL)
     ctx = core.Ctx(prop, tier, seed)
     try:
+        if 'scenario_set' in kw:
+            world = World(two_mds=SCENARIO_SETS[kw['scenario_set']][0])
+            try:
+                res = run_scenarios(ctx, world, True, notif_oracle=(prop == 'C01'), scenario_set=kw['scenario_set'])
+            finally:
+                world.stop()
+            return res, ctx.failures, ctx.hist, None
         world = World(two_mds=two_mds_chunk(kw['chunk']))
         try:
             res = run_chunk(ctx, world, **kw)
@@ -1930,11 +1947,12 @@ def _chunk_worker(args):
     return res, ctx.failures, ctx.hist, err
 
 
-def run_cases(ctx, key, n_hist, n_sched, processes=None, **kw):
-    """all chunks, each on a fresh provider in a worker process; merges counts / failures into ctx"""
+def run_cases(ctx, key, n_hist, n_sched, processes=None, scenario_sets=(), **kw):
+    """all chunks (and the fixed scenario sets), each on a fresh provider in a worker process; merges counts / failures"""
     import multiprocessing as mp
     chunks = list(range((n_hist + CHUNK - 1) // CHUNK))
-    tasks = [(ctx.prop, ctx.tier, ctx.seed, dict(key=key, chunk=c, n_hist=n_hist, n_sched=n_sched, **kw)) for c in chunks]
+    tasks = [(ctx.prop, ctx.tier, ctx.seed, dict(scenario_set=x)) for x in scenario_sets]
+    tasks += [(ctx.prop, ctx.tier, ctx.seed, dict(key=key, chunk=c, n_hist=n_hist, n_sched=n_sched, **kw)) for c in chunks]
     procs = processes or min(8, len(tasks))
     if procs <= 1:
         outs = [_chunk_worker(t) for t in tasks]
@@ -2430,7 +2448,37 @@ def scenario_delete_context_descriptor(world, rng):
     return rec.hist, [('reload', 0, 0, [])] + [('deliver', i) for i in w]
 
 
+def scenario_inflight_burst(world, rng):
+    """bursts of 1, 10, 150, 1200 notifications while GetMdib is in flight: four transactions on different metrics, in
+    order, then the last report again and again. Every report is newer than the GetMdib answer: none may get lost (the
+    buffer is unbounded: `buffering_exact`), the repetitions change nothing: the consumer is a mirror after the load"""
+    gen = TxGen(world, rng)
+    rec = HistoryRecorder(world)
+    mdib = world.mdib
+    metrics = _handles(mdib, lambda d: d.NODETYPE.localname == 'NumericMetricDescriptor')[:4]
+
+    def change(h):
+        def fn():
+            with mdib.metric_state_transaction() as tr:
+                st = tr.get_state(h)
+                if st.MetricValue is None:
+                    st.mk_metric_value()
+                st.MetricValue.Value = Decimal(rng.randint(1, 999))
+            return 'metric 1'
+        return fn
+    w = []
+    for h in metrics:
+        w += rec.tx(change(h))
+    w5 = rec.tx(gen.tx_alert)
+    sched = []
+    for n in (1, 10, 150, 1200):
+        sched += [('reload', 0, 0, w + [w[-1]] * n)] + [('deliver', i) for i in w5]
+    return rec.hist, sched
+
+
+SCENARIOS_BURST = (scenario_inflight_burst,)
 SCENARIOS_TWO_MDS = (scenario_two_mds_interleaved,)
+SCENARIO_SETS = {'main': (False, 'SCENARIOS'), 'two_mds': (True, 'SCENARIOS_TWO_MDS'), 'burst': (False, 'SCENARIOS_BURST')}
 
 SCENARIOS = (scenario_ctx_answer_newer, scenario_siblings_one_parent, scenario_context_entity_new_state,
              scenario_delete_context_descriptor, scenario_lost_child_delete, scenario_empty_transactions, scenario_same_handles_twice,
@@ -2438,11 +2486,13 @@ SCENARIOS = (scenario_ctx_answer_newer, scenario_siblings_one_parent, scenario_c
              scenario_context_keys, scenario_orphan_state)
 
 
-def run_scenarios(ctx, world, mirror_oracle=True, notif_oracle=False):
+def run_scenarios(ctx, world, mirror_oracle=True, notif_oracle=False, scenario_set=None):
     cases = []
-    for fn in (SCENARIOS_TWO_MDS if world.two_mds else SCENARIOS):
+    scenario_set = scenario_set or ('two_mds' if world.two_mds else 'main')
+    for fn in globals()[SCENARIO_SETS[scenario_set][1]]:
         hist, sched = fn(world, ctx.subrng('scenario', fn.__name__))
-        case = {'scenario': fn.__name__, 'two_mds': world.two_mds, 'schedule': [list(e) for e in sched]}
+        case = {'scenario': fn.__name__, 'two_mds': world.two_mds, 'scenario_set': scenario_set,
+                'schedule': [list(e) for e in sched] if len(sched) < 200 else f'({len(sched)} events, see the scenario)'}
 
         def fail(sig, detail, _case=case, _hist=hist):
             ctx.fail(sig, detail, {**_case, 'txs': _hist.txs})
@@ -2477,17 +2527,8 @@ def nontrivial(st, n_wire, n_events):
 
 def run(ctx):
     results = []
-    # scenarios in this process (fresh provider), generated cases in worker processes
-    res, failures, hist, err = _scenario_worker((ctx.prop, ctx.tier, ctx.seed, True))
-    if err:
-        raise RuntimeError('scenarios failed: ' + err)
-    results += res
-    for f in failures:
-        ctx.fail(f['signature'], f['detail'], f['case'])
-        ctx.hist['oracle-failure:' + f['signature']] -= 1
-    for k, v in hist.items():
-        ctx.count(k, v)
-    results += run_cases(ctx, 'c06', ctx.n(15, 400), ctx.n(8, 12))
+    # the fixed scenario sets and the generated cases, each task on a fresh provider in a worker process
+    results += run_cases(ctx, 'c06', ctx.n(15, 400), ctx.n(8, 12), scenario_sets=('burst', 'main', 'two_mds'))
     for r in results:
         ctx.case(r.canon, nontrivial=nontrivial(r.stats, r.n_wire, r.n_events),
                  sample={'txs': r.txs, 'schedule': r.case['schedule'][:12], 'stats': r.stats})
@@ -2513,7 +2554,7 @@ def replay(ctx, obj):
     world = World(two_mds=case.get('two_mds', False) if 'scenario' in case else two_mds_chunk(case['history'] // CHUNK))
     try:
         if 'scenario' in case:
-            run_scenarios(sub, world, True, notif_oracle=(ctx.prop == 'C01'))
+            run_scenarios(sub, world, True, notif_oracle=(ctx.prop == 'C01'), scenario_set=case.get('scenario_set'))
         else:
             run_chunk(sub, world, case['key'], case['history'] // CHUNK, case['n_hist'], 0, tuple(case['n_tx']),
                       sched_gen=case['sched_gen'], only=(case['history'], case['schedule']))
